@@ -428,6 +428,7 @@ func propAssumptions(prop string, db *ContractDB, assumed map[string]bool) []str
 		"A-SOLVER: an unsat answer of any one of z3 4.8.12, z3 5.1.0, cvc5 1.0.3 is believed",
 		"A-TERM: termination is not proved",
 		"A-HEAP: one element/field map per SMT sort (slices of different Go element types with the same sort may alias in the model; contracts add non-aliasing preconditions where needed); append writes in place when capacity allows, else reallocates",
+		"A-FRAME: trusted and extern contracts without a modifies clause are assumed to modify nothing; a verified contract without the clause gives its callers no frame (the whole heap is havocked at the call)",
 		"A-INT: machine integers are mathematical integers with exact wrap-around for unsigned types; signed overflow is checked only where the contract says `overflow on`",
 	}
 	data, err := os.ReadFile(filepath.Join(verifRoot, "contracts", "ASSUME.json"))
